@@ -449,9 +449,12 @@ func cmdCheck(args []string) int {
 			name := r.Func + "/witness/" + l
 			nObl++
 			status := "discharged"
-			if wfailed[name] || r.Clauses[l] != r.Accepted {
+			switch {
+			case wfailed[name]:
 				status = "failed"
-			} else {
+			case r.Clauses[l] != r.Accepted:
+				status = "inconclusive" // some execution neither proved nor refuted in this run: no verdict, no violation
+			default:
 				nDis++
 			}
 			perObl = append(perObl, map[string]interface{}{"name": name, "kind": "witness", "status": status, "backend": "go test -overlay + z3/cvc5", "queries": r.Accepted,
